@@ -21,6 +21,7 @@
 #include "Scope.h"
 
 #include "symbols/Symbol_Declaration.h"
+#include "symbols/TypeDeclaration_Tag.h"
 #include "syntax/Lexeme_Identifier.h"
 
 #include "../common/infra/Assertions.h"
@@ -87,6 +88,20 @@ void Scope::addDeclaration(const DeclarationSymbol* decl)
     auto key = std::make_pair(decl->denotingIdentifier(), decl->nameSpace());
     auto it = decls_.find(key);
     if (it != decls_.end()) {
+        // A structure or union declared without content (`struct s;') is completed by a
+        // later declaration of the same tag, in the same scope, that defines the content
+        // (6.7.2.3-4): from then on the tag denotes the declaration with the members.
+        if (decl->nameSpace() == NameSpace::Tags) {
+            auto prevTagDecl = it->second->asTagTypeDeclaration();
+            auto tagDecl = decl->asTagTypeDeclaration();
+            if (prevTagDecl
+                    && tagDecl
+                    && prevTagDecl->kind() == tagDecl->kind()
+                    && prevTagDecl->members().empty()
+                    && !tagDecl->members().empty()) {
+                it->second = decl;
+            }
+        }
         // TODO: if not nullptr identifier, indicate (bool) and report.
         return;
     }
